@@ -120,6 +120,9 @@ pub fn run(p: &AdvParams, sc: &str) -> (Vec<Vec<String>>, Value) {
                 let st = v["v"].as_u64().unwrap_or(0);
                 out.push(json!({"e":"Status","driver_ok":st & 4 != 0,"reset":st == 0}).to_string());
             }
+            // the console's single receive buffer (queue 0)
+            "QAdd" if p.sub["family"] == "console" && v["q"].as_u64() == Some(0) => out.push(json!({"e":"RxPost"}).to_string()),
+            "QPop" if p.sub["family"] == "console" && v["q"].as_u64() == Some(0) => out.push(json!({"e":"RxTake"}).to_string()),
             "FreeShared" => out.push(json!({"e":"FreeShared","q":v["q"],"during":last_op,"kind":p.sub["family"]}).to_string()),
             "Call" => {
                 last_op = v["op"].as_str().unwrap_or("").to_string();
